@@ -136,7 +136,7 @@ def write_saf(path, columns, channel_ids, rate, north_rot=0, ndat=None,
     num = (lambda v: f"{v:010d}") if padded else (lambda v: f"{v:d}")
     head = [
         "SESAME ASCII data format (saf) v. 1    (this line must not be modified)",
-        f"SAMP_FREQ = {rate:d}",
+        f"SAMP_FREQ = {rate}",
         f"NDAT = {num(ndat)}",
         "START_TIME = 2021 11 22 13 31 10.000",
         "CLIPPING SAMPLES = 0000000000 0000000000 0000000000",
@@ -243,3 +243,36 @@ def lcg_bytes(n, seed=20260407):
         x = (1103515245 * x + 12345) % (2 ** 31)
         out.append((x >> 16) & 0xFF)
     return bytes(out)
+
+
+# ---------------------------------------------------------------------------
+# naive parsers for the two text formats that have real example files in the
+# repository (used to anchor the writers above to files not written by us).
+# Plain str.split, no regular expressions.
+
+def parse_saf_naive(path):
+    """-> (header dict, list of integer rows)."""
+    with open(path, "rb") as f:
+        lines = f.read().decode("ascii", errors="replace").splitlines()
+    header, rows, body = {}, [], False
+    for ln in lines:
+        if body:
+            if ln.strip():
+                rows.append([int(t) for t in ln.split()])
+        elif ln.startswith("####"):
+            body = True
+        elif "=" in ln and not ln.startswith("#"):
+            k, v = ln.split("=", 1)
+            header[k.strip()] = v.strip()
+    return header, rows
+
+
+def parse_peer_naive(path):
+    """-> (direction code, NPTS, DT, list of sample values)."""
+    with open(path, "rb") as f:
+        lines = f.read().decode("ascii", errors="replace").splitlines()
+    code = lines[1].split(",")[-1].strip()
+    npts = int(lines[3].split("NPTS=")[1].split(",")[0])
+    dt = float(lines[3].split("DT=")[1].split()[0])
+    values = [float(t) for t in " ".join(lines[4:]).split()]
+    return code, npts, dt, values
